@@ -1,6 +1,6 @@
 (** Property C01 — verification accepts only histories authorized by the policy in force.
     Only statements here; proofs are in WorldProofs.v. *)
-From GV Require Import World WorldProofs WorldExamples.
+From GV Require Import World WorldProofs WorldExamples Tags TagsProofs.
 
 (** Soundness of full verification.  If it succeeds: the tip reported is the target of the latest
     entry for the reference; the policy it starts from heads a verified chain (C02); and the run is
@@ -40,3 +40,27 @@ Proof. vm_compute. reflexivity. Qed.
 Example C01_unauthorized_push_rejected : verify_full w_bad mainref = VFail VEViolation.
 Proof. vm_compute. reflexivity. Qed.
 Print Assumptions C01_K5_fix_entry_unverified.
+
+(** Tag references (histories of one policy state).  Every entry of an accepted tag reference passes
+    [verify_tag_entry] under that state, whatever was verified before it ... *)
+Theorem C01_tag_entries_all_verified : forall tw ref c,
+  verify_full_tags tw ref = VTip c ->
+  exists ps, load_state (tw_world tw) 0 = Some ps /\
+  forall i r t s, nth_error (w_log (tw_world tw)) i = Some (WERef r t s) ->
+    verify_tag_entry tw ps i r t s = true.
+Proof. exact tag_entries_meet_full_threshold. Qed.
+Print Assumptions C01_tag_entries_all_verified.
+
+(** ... which means: it names the tag object the reference holds (or the tagged commit), its log
+    entry is signed - with approvals bound to exactly that tag - to the full threshold of a rule
+    protecting the tag, and the tag object is signed by a principal of such a rule. *)
+Theorem C01_tag_entry_meaning : forall tw ps i ref target signer,
+  verify_tag_entry tw ps i ref target signer = true ->
+  exists tg, lookup_tag (tw_tags tw) target = Some tg /\
+    (tw_ref_now tw = Some target \/ target = tg_target tg) /\
+    (find_verifiers (policy_of ps) (GitScheme ++ ref) = WOk [] \/
+     exists vs env accepted v, find_verifiers (policy_of ps) (GitScheme ++ ref) = WOk vs /\
+       first_satisfied vs signer env = Some accepted /\
+       In v vs /\ git_phase (v_principals (vrec_verifier v)) (tg_signer tg) <> None).
+Proof. exact tag_entry_meaning. Qed.
+Print Assumptions C01_tag_entry_meaning.
